@@ -268,12 +268,14 @@ func ownFunc(w *World, fi *FuncInfo) []*OwnOb {
 	}
 	out = append(out, sliceAliasObs(w, fi)...)
 	out = append(out, resliceObs(w, fi)...)
+	out = append(out, nilListObs(w, fi)...)
 	// helpers executed through their bodies (filterList, filterMap) have no obligations of their own in a cone: what
 	// they do to their slice arguments is checked with every function that runs them
 	for _, c := range w.callees[fi] {
 		if inlinable(c) {
 			out = append(out, sliceAliasObs(w, c)...)
 			out = append(out, resliceObs(w, c)...)
+			out = append(out, nilListObs(w, c)...)
 		}
 	}
 	out = append(out, orderObs(w, fi)...)
@@ -583,6 +585,126 @@ func resliceObs(w *World, fi *FuncInfo) []*OwnOb {
 		}
 		return true
 	})
+	return out
+}
+
+// nilListObs: in the model a list is its sequence of elements, so a nil []any and an empty one are the same value. In Go
+// they are not (JSON prints null for one and [] for the other, reflect.DeepEqual tells them apart), and every list the
+// library builds today starts from a literal. A list variable that starts out nil (`var ret []any`, `ret = nil`) and is
+// then returned or stored in a tree is therefore an obligation failure: what it denotes when nothing is appended is not
+// what the functional obligations say.
+func nilListObs(w *World, fi *FuncInfo) []*OwnOb {
+	if fi.Decl == nil || fi.Decl.Body == nil {
+		return nil
+	}
+	info := fi.Pkg.TypesInfo
+	nilVars := map[*types.Var]token.Pos{}
+	ast.Inspect(fi.Decl.Body, func(n ast.Node) bool {
+		switch y := n.(type) {
+		case *ast.ValueSpec:
+			if len(y.Values) == 0 {
+				for _, nm := range y.Names {
+					if v, ok := info.Defs[nm].(*types.Var); ok && isTreeList(v.Type()) {
+						nilVars[v] = nm.Pos()
+					}
+				}
+			}
+		case *ast.AssignStmt:
+			if len(y.Lhs) == len(y.Rhs) {
+				for i, l := range y.Lhs {
+					id, ok := l.(*ast.Ident)
+					if !ok {
+						continue
+					}
+					v, _ := info.ObjectOf(id).(*types.Var)
+					if v == nil || !isTreeList(v.Type()) {
+						continue
+					}
+					r := y.Rhs[i]
+					if c, isConv := r.(*ast.CallExpr); isConv && len(c.Args) == 1 {
+						if tv, ok := info.Types[c.Fun]; ok && tv.IsType() {
+							r = c.Args[0]
+						}
+					}
+					if rid, ok := r.(*ast.Ident); ok && rid.Name == "nil" {
+						nilVars[v] = id.Pos()
+					}
+				}
+			}
+		}
+		return true
+	})
+	if len(nilVars) == 0 {
+		return nil
+	}
+	isNilVar := func(x ast.Expr) *types.Var {
+		for {
+			p, ok := x.(*ast.ParenExpr)
+			if !ok {
+				break
+			}
+			x = p.X
+		}
+		if id, ok := x.(*ast.Ident); ok {
+			if v, ok := info.ObjectOf(id).(*types.Var); ok {
+				if _, is := nilVars[v]; is {
+					return v
+				}
+			}
+		}
+		return nil
+	}
+	escapes := map[*types.Var]string{}
+	ast.Inspect(fi.Decl.Body, func(n ast.Node) bool {
+		switch y := n.(type) {
+		case *ast.FuncLit:
+			return true
+		case *ast.ReturnStmt:
+			for _, r := range y.Results {
+				if v := isNilVar(r); v != nil {
+					escapes[v] = "returned"
+				}
+			}
+		case *ast.AssignStmt:
+			for i, l := range y.Lhs {
+				if _, isId := l.(*ast.Ident); isId {
+					continue
+				}
+				if i < len(y.Rhs) {
+					if v := isNilVar(y.Rhs[i]); v != nil {
+						escapes[v] = "stored in " + exprString(l)
+					}
+				}
+			}
+		case *ast.KeyValueExpr:
+			if v := isNilVar(y.Value); v != nil {
+				escapes[v] = "stored in a literal"
+			}
+		case *ast.CompositeLit:
+			for _, el := range y.Elts {
+				if v := isNilVar(el); v != nil {
+					escapes[v] = "stored in a literal"
+				}
+			}
+		case *ast.CallExpr:
+			if id, ok := y.Fun.(*ast.Ident); ok && id.Name == "append" && y.Ellipsis == token.NoPos {
+				for _, a := range y.Args[1:] {
+					if v := isNilVar(a); v != nil {
+						escapes[v] = "appended as an element"
+					}
+				}
+			}
+		}
+		return true
+	})
+	var out []*OwnOb
+	for v, how := range escapes {
+		pp := w.Fset.Position(nilVars[v])
+		out = append(out, &OwnOb{Key: fmt.Sprintf("%s.own-nil-list[%s]", fi.Key, v.Name()), Kind: "own-not-borrowed", OK: false,
+			Pos: fmt.Sprintf("%s:%d", strings.TrimPrefix(pp.Filename, w.RepoDir+"/"), pp.Line),
+			Why: "the list " + v.Name() + " starts out nil and is " + how + ": a nil list is not the empty list (JSON prints null, DeepEqual differs); start from a literal"})
+	}
+	sort.Slice(out, func(i, j int) bool { return out[i].Key < out[j].Key })
 	return out
 }
 
@@ -1504,6 +1626,7 @@ func ownPass(w *World, id string) []*OwnOb {
 		for _, fi := range all {
 			out = append(out, sliceAliasObs(w, fi)...)
 			out = append(out, resliceObs(w, fi)...)
+			out = append(out, nilListObs(w, fi)...)
 		}
 		return out
 	}
